@@ -13,7 +13,7 @@ import (
 	"verif/mc/ref"
 )
 
-var hostileKeys = []string{"", "a/b", "m~n", "~1", "é", "0", "01", "-", "+1", "1e3", "a", "-1", "~0~1/", "a/b/c", "~~", "//", " ", "A", "007", "-0", "1.5"}
+var hostileKeys = []string{"", "a/b", "m~n", "~1", "é", "0", "01", "-", "+1", "1e3", "a", "-1", "~0~1/", "a/b/c", "~~", "//", " ", "A", "007", "-0", "1.5", "0x1F", "0b1", "0o7", "010", "1_000", "http://example.com/x", "/usr/bin", "10", "20", "100"}
 
 // HostileDocs: documents whose keys need pointer escaping, look like numbers or are "-".
 func HostileDocs() *TextSet {
@@ -110,7 +110,7 @@ func init() {
 			return []string{"translated/multi-hunk", "translated/single-hunk", "refused/number-like", "native-applies-elsewhere"}
 		},
 		Assume: []string{"RFC 6902 / 6901 evaluator in /verif/mc/ref (validated on RFC 6902 Appendix A at start-up)", "removing the root ('remove' with path \"\") is read permissively: the document becomes absent and only add \"\" may follow"},
-		Budget: budget(4*time.Minute, 40*time.Minute),
+		Budget: budget(7*time.Minute, 40*time.Minute),
 	})
 }
 
@@ -214,8 +214,14 @@ func runC09(c *engine.Case) engine.Result {
 		}
 		// other targets on which the native diff applies
 		targets := []string{c.B}
-		for _, e := range gen.Edits(aV, c03EditAlpha, []string{"k", "a"}) {
-			targets = append(targets, ref.JSON(e))
+		if len(c.A) <= 600 { // the neighbourhood of a big document is as big as the document squared
+			for _, e := range gen.Edits(aV, c03EditAlpha, []string{"k", "a"}) {
+				targets = append(targets, ref.JSON(e))
+			}
+		} else {
+			for _, e := range truncations(aV) {
+				targets = append(targets, ref.JSON(e))
+			}
 		}
 		elsewhere := 0
 		for _, ct := range targets {
